@@ -127,6 +127,12 @@ func pathString(nodes []node) string {
 	path := ""
 	for _, n := range nodes {
 		path += n.String()
+		// Nodes without a consumer (e.g., explicit annotations) print no position, so two flows
+		// that start at different annotated sites would otherwise be indistinguishable. Include
+		// the producer position to keep such flows apart.
+		if !n.consumerPosition.IsValid() && n.producerPosition.IsValid() {
+			path += "@" + n.producerPosition.String()
+		}
 	}
 	return path
 }
